@@ -91,6 +91,7 @@ def contract(cell, ir):
 
 def main(tier, write_baseline=False):
     run = Run("C05", tier, "other", checker_cmd=common.checker_cmd("C05", tier))
+    M.RAISE_CTX.update(prop="C05", write=bool(write_baseline))
     run.trusted_base.update(["cddvc E1 block contracts with symbolic-key maps whose unknown base entries are materialised on read", "z3 5.1"])
     run.assumptions.add("idiom: any(filter(rpartial(str.startswith, '[PK]'), map(methodcaller('get', 'doc', ''), params.values()))) is true iff some column description starts with '[PK]' (the branch condition of the verified block)")
     refuted = e1.run_contracts(run, "contracts.C05")
@@ -125,6 +126,7 @@ def main(tier, write_baseline=False):
         seen.add(o["name"])
         run.violation(o["name"], "obligation refuted by %s on path %s" % (o["backend"], " ".join(o["trace"])), solver_output={"model": o["model"], "smt2": (o["smt2"] or "")[:4000]})
     M.report(run, "C05/bounded", fails)
+    M.flush_raise_baseline()
     common.apply_controls(run, tier)
     return run.finish(explanation="PROVED (lemma): primary-key inference marks exactly one column when none is marked. BOUNDED only: the round-trips and the agreement of the three variants.")
 
